@@ -149,6 +149,19 @@ class DiskFS(BaseFS):
 
 
 # ---- file objects and API facades ---------------------------------------------------------------------------
+BUFFER = 8192      # io.BufferedWriter default: smaller writes stay in memory until flush/close; a crash loses them
+
+
+class VBytes(bytes):
+  """A few real bytes standing for a (virtual) longer run: `vlen` drives the buffering decision, the content stays tiny."""
+  vlen = 0
+
+  def __new__(cls, data, vlen):
+    o = bytes.__new__(cls, data)
+    o.vlen = vlen
+    return o
+
+
 class _Writer:
   def __init__(self, fs, path, text, append=False):
     self.fs, self.path, self.text = fs, path, text
@@ -157,23 +170,39 @@ class _Writer:
     else:
       fs.create(path)
     self.closed = False
+    self.pending = b''
+    self.pending_v = 0
 
   def write(self, data):
     if self.text:
       data = data.encode()
-    self.fs.append(self.path, bytes(data))
+    vlen = getattr(data, 'vlen', len(data))
+    data = bytes(data)
+    if self.pending_v + vlen < BUFFER:
+      self.pending = self.pending + data        # memory only: not an effect
+      self.pending_v += vlen
+    else:
+      out, self.pending, self.pending_v = self.pending + data, b'', 0
+      self.fs.append(self.path, out)
     return len(data)
 
   def flush(self):
-    pass
+    if self.pending:
+      out, self.pending, self.pending_v = self.pending, b'', 0
+      self.fs.append(self.path, out)
 
   def close(self):
-    self.closed = True
+    if not self.closed:
+      self.closed = True
+      self.flush()
 
   def __enter__(self):
     return self
 
   def __exit__(self, *a):
+    if a and a[0] is not None and issubclass(a[0], Crash):
+      self.closed = True      # the process died: buffered data is lost
+      return False
     self.close()
     return False
 
@@ -242,6 +271,12 @@ class OSPathFacade:
 
   def isfile(self, p):
     return self.fs.exists(p)
+
+  def splitext(self, p):
+    return os.path.splitext(p)
+
+  def expanduser(self, p):
+    return '/home/u' + p[1:] if p.startswith('~') else p
 
   def getsize(self, p):
     return self.fs.size(p)
